@@ -382,6 +382,35 @@ def run(repo, rep, tier):
         rep.note(f"typing stopped early ({e}); the violations above already decide the run")
         return "see violations"
     problems(rep, T, "R-C01-1", ("units", "dims", "log"), skip_funcs=("gw",))
+    # R-C01-9 (shared with C10): a guard inside an integrated parameter that compares an energy-dependent quantity with an absolute constant
+    # replaces the defining integral by a fill value below that level
+    rep.rule("R-C01-9", "(shared with C10) degenerate-case guards inside the integrated parameters compare scale-free quantities (or the result "
+                        "itself): a guard on an energy-dependent quantity against an absolute constant returns a fill value instead of the "
+                        "defining integral for low-energy spectra")
+    _Q, _ZERO = Q, Fr(0)
+    from .shared import RATIO_STATS
+    seen_ = set()
+    ncmp = 0
+    for fi_, node_, l_, r_, rnode_ in T.compares:
+        if fi_.cls is None or fi_.cls.name != "SpecArray" or fi_.name not in RATIO_STATS + ("hs", "hrms", "mss", "uss", "uss_x", "uss_y"):
+            continue
+        if (fi_.qualname, node_.lineno) in seen_ or not isinstance(l_, _Q) or not isinstance(r_, _Q):
+            continue
+        seen_.add((fi_.qualname, node_.lineno))
+        ncmp += 1
+        for a_, b_, bn_ in ((l_, r_, rnode_), (r_, l_, node_.left)):
+            if a_.h not in (_ZERO, None) and b_.lit and repo.const(fi_.module, bn_) not in (0, 0.0):
+                v_ = repo.const(fi_.module, bn_)
+                rep.fail("R-C01-9", fi_.file, node_.lineno, fi_.qualname, unparse(node_)[:100], anchor=f"{fi_.name}:degree-{a_.h}-vs-constant-{v_}", reason=
+                         f"the statistic is masked / replaced where a quantity scaling like k^{a_.h} with the spectrum falls below the constant {v_}: for "
+                         "such spectra the returned value is a fill value, not the defining integral (which does not depend on the energy level)")
+                break
+        else:
+            rep.ok("R-C01-9", f"{fi_.file}:{node_.lineno} {fi_.short}", unparse(node_)[:80], "scale-free guard", nontrivial=False)
+    rep.rule("R-C01-10", "(shared with C05) label-level code never combines a bare ndarray taken out of a labelled array with labelled data, nor "
+                         "applies a positional axis to it: the directional weights / bin widths meet the spectrum by dimension name")
+    from .c05 import raw_positional
+    raw_positional(repo, rep, "R-C01-10")
     rep.floor("R-C01-1", "typed statistics", n, 30)
     T1 = Typing(repo, two_d=False)
     for name in ("hs", "hrms", "tm01", "tm02", "swe", "sw", "goda", "mss"):
